@@ -202,6 +202,15 @@ PX("C07", "C07_overtaking", "Every request terminates: bounded overtaking in the
  ("C07_no_overtaking_topic", "no_overtaking_topic", "bounded overtaking under a load that never stops: nothing ever gets in front of a request that sits in a topic's mailbox - across any step the requests ahead of it stay or lose their head by the topic's own dequeue, arrivals go behind it - so a request at position p is taken after exactly p+1 dequeues of its topic"),
  ("C07_no_overtaking_sub", "no_overtaking_sub", "the same for a subscription's mailbox (which is also cleared when the subscription's actor exits)"),
 ])
+HDR_MBOX = "From Coq Require Import List Arith Bool Lia.\nImport ListNotations.\nFrom Deltio Require Import Model.Mailbox Proofs.MailboxP.\n"
+PX("C07", "C07_mailbox", "Every request terminates: the shutdown of an actor's mailbox strands no request", HDR_MBOX, "MailboxP.v", [
+ ("C07_mailbox_never_stranded", "new_never_stranded", "tokio's bounded channel at the granularity reserve-a-slot / push / serve / close / pop / receiver-gone, any number of senders, any capacity, any interleaving: with the orderly shutdown (close, then receive until the channel reports its end - the code after fix f7f8d33) no reachable state has the receiver gone and a message in the channel or a reserved slot outstanding"),
+ ("C07_mailbox_everyone_answered", "new_everyone_answered", "when the receiver is gone every sender that was let in has had its message taken out (served, or dropped during the shutdown, which its caller sees as the 'closed' error) and nobody still holds a slot: no caller waits for ever"),
+ ("C07_mailbox_drain_progress", "new_drain_progress", "while the receiver is closing down some step is always enabled"),
+ ("C07_mailbox_drain_decreases", "new_drain_decreases", "and once the channel is closed every step but the receiver's last strictly decreases 2*(reserved slots) + (queued messages) + (senders that have not asked yet): the shutdown ends"),
+ ("C07_mailbox_old_strands", "old_strands", "with the plain drop of the receiver (the code before the fix) one sender is enough: reserve, close, gone, push - the message is in a channel nobody reads and its sender is never answered (the hang harness nsstress found on the multi-thread runtime)"),
+ ("C07_mailbox_new_same_schedule", "new_same_schedule", "on that schedule the orderly receiver cannot leave while the slot is outstanding; it takes the late message out and only then goes"),
+])
 PX("C16", "C16_actors", "Abandoned requests have all-or-nothing effect", HDR_ACTORS, "ConcActorsP.v", [
  ("C16_exists_implies_attached", "C16_attached", "actor model with drops of any client at any pending point: at every quiescent reachable state every subscription that exists, is not deleted and whose topic lives is attached to that topic"),
  ("C16_never_wedged", "C16_no_wedge", "after any continuation, drops included, the server can still make progress whenever something is outstanding"),
